@@ -1,5 +1,426 @@
-"""C15 — bounded stand-in for now (runtime contracts on the real code against an independent reference); see DESIGN.md."""
-BOUNDED_ONLY = True
+"""C15 — periodic and Mahalanobis distances obey the metric laws under minimum image.
+
+Real functions: periodic_pairwise_euclidean_distances, _periodic_euclidean_distances, pairwise_mahalanobis_distances (+ nested _mahalanobis), _check_dimension
+(skmatter/metrics/_pairwise.py), for every number of points, every dimension, every cell.
+
+Formula conformance is proved on the real code: entry (i, j) of the result is sqrt(SUM_d w_d^2) with w_d = u_d - rne(u_d / cell_d) cell_d, u_d = X[i,d] - Y[j,d]
+(rne = numpy's round-half-to-even, exact), its square with squared=True, the call to sklearn's Euclidean distance without a cell; entry (c, i, j) of the Mahalanobis
+result is sqrt(SUM_d w_d SUM_e C[c,d,e] w_e) (w = u without a cell), so every matrix of a stack is treated independently; a mismatched cell dimension is rejected.
+The finite sum over the coordinates is an uninterpreted functional SUMD(lambda d. f(d), D) (only the instances 'a sum of non-negative terms is non-negative',
+'equal terms give equal sums', 'smaller terms give smaller sums', 'a sum of zeros is zero' are used, each as an instance for concrete term functions).
+Metric laws: non-negativity, zero at periodic images, invariance under integer image shifts of X and Y, never above the free-space distance, symmetry are lemmas
+over the scalar wrap function + those SUMD instances.  The one-dimensional triangle inequality |F(p+q)| <= |F(p)| + |F(q)| (F = signed distance to the nearest integer) is proved from the
+minimality lemma |F(q)| <= |q - n| (two cases n <= floor q, n >= floor q + 1); its l2 lift is Minkowski's inequality (cited)."""
+from pyvc.api import *
+from pyvc import skstubs
+from pyvc.engine import ExtNS, ExtClass, Opaque
+
+PW = 'skmatter.metrics._pairwise'
+d_, e_ = Int('d!s'), Int('e!s')
+SUMD = z3.Function('SUMD', z3.ArraySort(IntS, RealS), IntS, RealS)     # SUMD(f, D) = sum of f(d) for 0 <= d < D
+SQRT = npstubs.SQRT
+rne = npstubs.rne
+
+class SymList:
+    """[body(x) for x in X] for the rows x = X[k] of a symbolic 2-D array: one array value depending on the bound row index k"""
+    def __init__(self, k, n, item): self.k, self.n, self.item = k, n, item
+
+def comp_rows(I, e, g, it, F):
+    if not isinstance(it, ArrRef) or I.A(it).ndim != 2 or g.ifs: raise Unsupported("comprehension over symbolic iterable")
+    A = I.A(it)
+    k = I.fresh('k!row', IntS)
+    row = I.new_arr(ArrVal((A.shape[1],), lambda d: A.elem(k, tz(d)), A.sort))
+    G = dict(F); I.assign(g.target, row, G)
+    I.st.guards.append(And(0 <= k, k < tz(A.shape[0])))
+    try: body = I.ev(e.elt, G)
+    finally: I.st.guards.pop()
+    if not isinstance(body, ArrRef) or I.A(body).ndim != 2: raise Unsupported("row comprehension with a non-matrix body")
+    return SymList(k, A.shape[0], I.A(body))
+
+def flat_match(r, ny):
+    """r == i*ny + j built by the reshape stub below -> (i, j)"""
+    if z3.is_expr(r) and z3.is_add(r) and r.num_args() == 2:
+        a, j = r.arg(0), r.arg(1)
+        if z3.is_mul(a) and a.num_args() == 2 and z3.eq(a.arg(1), ny): return a.arg(0), j
+    return None
+
+def np_concatenate(I, seq, axis=0, **kw):
+    if not isinstance(seq, SymList): return I.cur['prev_concatenate'](I, seq, axis=axis, **kw)
+    npstubs.used('np.concatenate of a per-row list (block structure kept)')
+    it = seq.item; nx, ny = tz(seq.n), tz(it.shape[0])
+    def elem(r, d):
+        m = flat_match(r, ny)
+        if m is None: i, j = tz(r) / ny, tz(r) % ny
+        else: i, j = m
+        return z3.substitute(tz(it.elem(j, tz(d))), (seq.k, i))
+    return I.new_arr(ArrVal((nx * ny, it.shape[1]), elem, it.sort, ('blocks', nx, ny)))
+
+def lam(f): return z3.Lambda([d_], f(d_))
+
+def np_norm(I, a, axis=None, **kw):
+    A = I.A(a)
+    if A.ndim == 2 and axis in (1, -1):
+        npstubs.used('np.linalg.norm(axis=1) = sqrt of the sum of squares over the coordinates')
+        D = tz(A.shape[1])
+        return I.new_arr(ArrVal((A.shape[0],), lambda r: SQRT(SUMD(lam(lambda d: to_real(A.elem(tz(r), d)) * to_real(A.elem(tz(r), d))), D)), RealS, ('rownorm', A.tag)))
+    raise Unsupported("np.linalg.norm form")
+
+def reshape_attr(I, a):
+    def f(I2, *shape, **kw):
+        A = I2.A(a)
+        shp = shape[0] if len(shape) == 1 and isinstance(shape[0], (tuple, list)) else shape
+        shp = tuple(shp)
+        if A.ndim == 1 and len(shp) == 2:
+            n, m = tz(shp[0]), tz(shp[1])
+            I2.ob('shape:reshape size', tz(A.shape[0]) == n * m, kind='shape')
+            return I2.new_arr(ArrVal((conc(n), conc(m)), lambda i, j: A.elem(tz(i) * m + tz(j)), A.sort))
+        if A.ndim == 2 and len(shp) == 3:
+            p, n, m = tz(shp[0]), tz(shp[1]), tz(shp[2])
+            I2.ob('shape:reshape size', And(tz(A.shape[0]) == p, tz(A.shape[1]) == n * m), kind='shape')
+            return I2.new_arr(ArrVal((conc(p), conc(n), conc(m)), lambda c, i, j: A.elem(tz(c), tz(i) * m + tz(j)), A.sort))
+        return npstubs.np_reshape(I2, a, shp)
+    return f
+
+def matmul_hook(I, a, b, what):
+    if not (isinstance(I.cur, dict) and I.cur.get('c15')): return None
+    if not (isinstance(a, ArrRef) and isinstance(b, ArrRef)): return None
+    A, B = I.A(a), I.A(b)
+    if A.ndim == 3 and B.ndim == 2:
+        npstubs.used('@ of a stack of matrices with a matrix (entry = sum over the contracted index)')
+        sd = npstubs.same_dim(A.shape[2], B.shape[0])
+        if sd is False: raise RaiseEx('ValueError')
+        if sd is None: I.ob(f'shape:{what}', tz(A.shape[2]) == tz(B.shape[0]), kind='shape')
+        D = tz(A.shape[2])
+        return I.new_arr(ArrVal((A.shape[0], A.shape[1], B.shape[1]),
+                                lambda c, d, r: SUMD(z3.Lambda([e_], to_real(A.elem(tz(c), tz(d), e_)) * to_real(B.elem(e_, tz(r)))), D), RealS))
+    return None
+
+def sum_hook(I, a, axis, kw):
+    A = I.A(a)
+    if A.ndim == 3 and axis in (-1, 2):
+        npstubs.used('np.sum(axis=-1) over the coordinates')
+        D = tz(A.shape[2])
+        return I.new_arr(ArrVal((A.shape[0], A.shape[1]), lambda c, r: SUMD(lam(lambda d: to_real(A.elem(tz(c), tz(r), d))), D), RealS))
+    return None
+
+def check_pairwise_arrays(I, X, Y, **kw):
+    npstubs.used('sklearn check_pairwise_arrays (returns X and Y, Y = X when None; rejects different numbers of columns)')
+    if Y is None: Y = X
+    if I.branch(tz(I.A(X).shape[1]) != tz(I.A(Y).shape[1])): raise RaiseEx('ValueError')
+    return (X, Y)
+
+def euclid_stub(I, X, Y, *a, **kw):
+    npstubs.used('sklearn _euclidean_distances (external)')
+    I.cur['euclid_call'] = (X, Y, a, kw)
+    return I.fresh_arr('euclid', (I.A(X).shape[0], I.A(Y).shape[0]))
+
+def extend_ext(ext):
+    skstubs.install(ext)
+    if matmul_hook not in npstubs.MATMUL_HOOKS: npstubs.MATMUL_HOOKS.insert(0, matmul_hook)
+    ext['comp_sym'] = comp_rows
+    np_ = ext['modules']['np']
+    prev = np_.concatenate
+    def conc_(I, seq, axis=0, **kw):
+        I.cur['prev_concatenate'] = prev
+        return np_concatenate(I, seq, axis=axis, **kw)
+    np_.concatenate = conc_
+    np_.linalg.norm = np_norm
+    ext['sum_hook'] = sum_hook
+    ext['arr_attrs'] = dict(ext['arr_attrs']); ext['arr_attrs']['reshape'] = reshape_attr
+    ext['names']['sklearn.metrics.pairwise.check_pairwise_arrays'] = check_pairwise_arrays
+    ext['names']['sklearn.metrics.pairwise._euclidean_distances'] = euclid_stub
+    ext['names']['typing.Union'] = Opaque('Union')
+
+def wrap(u, c): return u - z3.ToReal(rne(u / c)) * c
+
+def setup(I, same=False):
+    nx, ny, D = I.fresh('nx', IntS), I.fresh('ny', IntS), I.fresh('D', IntS)
+    I.assume(And(nx >= 1, ny >= 1, D >= 1))
+    I.cur = dict(c15=True)
+    X = I.fresh_arr('X', (nx, D)); Y = X if same else I.fresh_arr('Y', (ny, D))
+    if same: ny = nx
+    cell = I.fresh_arr('cell', (D,)); c = I.A(cell).elem
+    I.assume(ForAll([d_], Implies(And(0 <= d_, d_ < D), c(d_) > 0), patterns=[c(d_)]))
+    i, j = I.fresh('i', IntS), I.fresh('j', IntS); I.assume(And(0 <= i, i < nx, 0 <= j, j < ny))
+    return dict(nx=nx, ny=ny, D=D, X=X, Y=Y, cell=cell, i=i, j=j)
+
+def spec_sq(I, s, i, j, X=None, Y=None):
+    """SUM_d wrap(X[i,d] - Y[j,d], cell_d)^2"""
+    Xe, Ye, c = I.A(X or s['X']).elem, I.A(Y or s['Y']).elem, I.A(s['cell']).elem
+    w = lambda d: wrap(Xe(i, d) - Ye(j, d), c(d))
+    return SUMD(lam(lambda d: w(d) * w(d)), s['D'])
+
+def u_periodic(squared, y_none=False):
+    q = PW + '.periodic_pairwise_euclidean_distances'
+    def body(I):
+        s = setup(I, same=y_none); i, j = s['i'], s['j']
+        X0, Y0, c0 = I.A(s['X']), I.A(s['Y']), I.A(s['cell'])
+        r = I.call_func(I.repo.get(q), [s['X'], None if y_none else s['Y']], dict(squared=squared, cell_length=s['cell']))
+        R = I.A(r)
+        I.ob('post[C15]:one-entry-per-pair', And(BoolVal(R.ndim == 2), tz(R.shape[0]) == s['nx'], tz(R.shape[1]) == s['ny']), kind='post')
+        S = spec_sq(I, s, i, j)
+        if squared: I.ob('post[C15]:squared=True-returns-the-square-of-the-minimum-image-distance', R.elem(i, j) == SQRT(S) * SQRT(S), kind='post')
+        else: I.ob('post[C15]:distance-is-the-norm-of-the-minimum-image-difference', R.elem(i, j) == SQRT(S), kind='post')
+        I.ob('post[C15]:inputs-left-untouched', BoolVal(I.A(s['X']) is X0 and I.A(s['Y']) is Y0 and I.A(s['cell']) is c0), kind='post')
+    return Unit(f'periodic_pairwise_euclidean_distances[squared={squared}{",Y=None" if y_none else ""}]', body, functions=[q, PW + '._periodic_euclidean_distances', PW + '._check_dimension'])
+
+def u_no_cell(squared):
+    q = PW + '.periodic_pairwise_euclidean_distances'
+    def body(I):
+        s = setup(I)
+        r = I.call_func(I.repo.get(q), [s['X'], s['Y']], dict(squared=squared))
+        ec = I.cur.get('euclid_call')
+        I.ob('post[C15]:without-a-cell-the-result-is-sklearns-euclidean-distance-of-the-same-arguments',
+             BoolVal(ec is not None and ec[0].id == s['X'].id and ec[1].id == s['Y'].id and not ec[2] and ec[3] == dict(squared=squared)), kind='post')
+    return Unit(f'periodic_pairwise_euclidean_distances[no-cell,squared={squared}]', body, functions=[q])
+
+def u_reject():
+    q = PW + '.periodic_pairwise_euclidean_distances'
+    def body(I):
+        s = setup(I)
+        bad = I.fresh_arr('badcell', (I.fresh('Dc', IntS),)); I.assume(tz(I.A(bad).shape[0]) != s['D']); I.assume(tz(I.A(bad).shape[0]) >= 0)
+        I.cur['expect_raise'] = True
+        I.call_func(I.repo.get(q), [s['X'], s['Y']], dict(cell_length=bad))
+        I.ob('reject[C15]:mismatched-cell-dimension-is-rejected', BoolVal(False), kind='post')
+    return Unit('periodic_pairwise_euclidean_distances[mismatched-cell]', body, functions=[q, PW + '._check_dimension'],
+                on_raise=lambda I, st, r: r.kind == 'ValueError')
+
+def u_reject_m():
+    q = PW + '.pairwise_mahalanobis_distances'
+    def body(I):
+        s = setup(I)
+        bad = I.fresh_arr('badcell', (I.fresh('Dc', IntS),)); I.assume(tz(I.A(bad).shape[0]) != s['D']); I.assume(tz(I.A(bad).shape[0]) >= 0)
+        C = I.fresh_arr('cov_inv', (s['D'], s['D']))
+        I.call_func(I.repo.get(q), [s['X'], s['Y'], C], dict(cell_length=bad))
+        I.ob('reject[C15]:mismatched-cell-dimension-is-rejected', BoolVal(False), kind='post')
+    return Unit('pairwise_mahalanobis_distances[mismatched-cell]', body, functions=[q, PW + '._check_dimension'], on_raise=lambda I, st, r: r.kind == 'ValueError')
+
+def u_mahalanobis(stack, with_cell, squared):
+    q = PW + '.pairwise_mahalanobis_distances'
+    def body(I):
+        s = setup(I); i, j, D = s['i'], s['j'], s['D']
+        nc = I.fresh('n_cov', IntS); I.assume(nc >= 1)
+        C = I.fresh_arr('cov_inv', (nc, D, D) if stack else (D, D)); Ce = I.A(C).elem
+        cc = I.fresh('c', IntS); I.assume(And(0 <= cc, cc < (nc if stack else 1)))
+        X0, Y0, C0 = I.A(s['X']), I.A(s['Y']), I.A(C)
+        r = I.call_func(I.repo.get(q), [s['X'], s['Y'], C], dict(cell_length=s['cell'] if with_cell else None, squared=squared))
+        R = I.A(r)
+        I.ob('post[C15]:one-entry-per-precision-matrix-and-pair', And(BoolVal(R.ndim == 3), tz(R.shape[0]) == (nc if stack else 1), tz(R.shape[1]) == s['nx'], tz(R.shape[2]) == s['ny']), kind='post')
+        Xe, Ye, c = I.A(s['X']).elem, I.A(s['Y']).elem, I.A(s['cell']).elem
+        w = (lambda d: wrap(Xe(i, d) - Ye(j, d), c(d))) if with_cell else (lambda d: Xe(i, d) - Ye(j, d))
+        Cm = (lambda d, e: Ce(cc, d, e)) if stack else (lambda d, e: Ce(d, e))
+        Q = SUMD(lam(lambda d: w(d) * SUMD(z3.Lambda([e_], Cm(d, e_) * w(e_)), D)), D)
+        if squared: I.ob('post[C15]:squared-mahalanobis-distance-is-the-quadratic-form-of-that-precision-matrix-only', R.elem(cc, i, j) == Q, kind='post')
+        else: I.ob('post[C15]:mahalanobis-distance-is-the-root-of-the-quadratic-form-of-that-precision-matrix-only', R.elem(cc, i, j) == SQRT(Q), kind='post')
+        I.ob('post[C15]:inputs-left-untouched', BoolVal(I.A(s['X']) is X0 and I.A(s['Y']) is Y0 and I.A(C) is C0), kind='post')
+    return Unit(f'pairwise_mahalanobis_distances[{"stack" if stack else "single"},{"cell" if with_cell else "free"},squared={squared}]', body, functions=[q])
+
+# ------------------------------------------------------------------ metric laws as lemmas over the proved formula
+def ab(x): return If(x >= 0, x, -x)
+def Fr(q): return q - z3.ToReal(rne(q))          # signed distance to the nearest integer (ties to even): wrap(u, c) = c * Fr(u / c)
+
+def u_scalar_lemmas():
+    """the one-dimensional facts, for every real q, p and integers k, n (linear arithmetic with to_int; exact round-half-even)"""
+    def body(I):
+        q, p = I.fresh('q', RealS), I.fresh('p', RealS); k, n = I.fresh('k', IntS), I.fresh('n', IntS)
+        fl = z3.ToInt(q)
+        I.ob('lemma[C15]:wrap-is-odd', Fr(-q) == -Fr(q), kind='lemma')
+        I.ob('lemma[C15]:wrap-magnitude-is-unchanged-by-integer-shifts', ab(Fr(q + z3.ToReal(k))) == ab(Fr(q)), kind='lemma')
+        I.ob('lemma[C15]:wrap-magnitude-is-at-most-one-half', ab(Fr(q)) <= RealVal('1/2'), kind='lemma')
+        I.ob('lemma[C15]:wrap-magnitude-is-at-most-the-free-magnitude', ab(Fr(q)) <= ab(q), kind='lemma')
+        I.ob('lemma[C15]:wrap-vanishes-at-integers', Fr(z3.ToReal(k)) == 0, kind='lemma')
+        I.ob('lemma[C15]:wrap-magnitude-is-the-distance-to-the-nearest-integer:below', Implies(n <= fl, ab(Fr(q)) <= ab(q - z3.ToReal(n))), kind='lemma')
+        I.ob('lemma[C15]:wrap-magnitude-is-the-distance-to-the-nearest-integer:above', Implies(n >= fl + 1, ab(Fr(q)) <= ab(q - z3.ToReal(n))), kind='lemma')
+        # triangle inequality in one dimension, from minimality at the integer rne(p) + rne(q)
+        m = rne(p) + rne(q); flpq = z3.ToInt(p + q)
+        I.assume(Implies(m <= flpq, ab(Fr(p + q)) <= ab((p + q) - z3.ToReal(m))))      # instances of the two lemmas above (proved for every q and n)
+        I.assume(Implies(m >= flpq + 1, ab(Fr(p + q)) <= ab((p + q) - z3.ToReal(m))))
+        I.ob('lemma[C15]:wrap-magnitude-obeys-the-triangle-inequality', ab(Fr(p + q)) <= ab(Fr(p)) + ab(Fr(q)), kind='lemma')
+    return Unit('lemmas[wrap-in-units-of-the-cell]', body, functions=[])
+
+def u_lift_lemmas():
+    """from units of the cell to lengths: wrap(u, c) = c Fr(u / c) for c > 0, and the squared forms used coordinate by coordinate"""
+    def body(I):
+        u, v, c = I.fresh('u', RealS), I.fresh('v', RealS), I.fresh('c', RealS); k = I.fresh('k', IntS)
+        I.assume(c > 0)
+        q = u / c
+        I.assume(q * c == u)                                    # definition of division by a non-zero number
+        I.ob('lemma[C15]:wrap-in-lengths-is-the-cell-times-wrap-in-cell-units', wrap(u, c) == c * Fr(q), kind='lemma')
+        F = I.fresh('Fq', RealS); I.assume(F == Fr(q)); W = c * F
+        I.assume(And(ab(F) <= RealVal('1/2'), ab(F) <= ab(q)))            # scalar lemmas (proved above) at q
+        g = W * W <= c * c * RealVal('1/4')
+        I.ob('lemma[C15]:squared-wrapped-coordinate-is-at-most-a-quarter-of-the-squared-cell-length', g, kind='lemma')
+        I.ob('lemma[C15]:squared-wrapped-coordinate-is-at-most-the-squared-free-coordinate', W * W <= u * u, kind='lemma')
+    return Unit('lemmas[wrap-in-lengths]', body, functions=[])
+
+def u_scale_lemma():
+    def body(I):
+        c, F = I.fresh('c', RealS), I.fresh('F', RealS); I.assume(c > 0)
+        I.ob('lemma[C15]:magnitude-of-a-positive-multiple', ab(c * F) == c * ab(F), kind='lemma')
+    return Unit('lemmas[magnitude-of-a-positive-multiple]', body, functions=[])
+
+def _unused():
+    def body(I):
+        pass
+    return Unit('lemmas[wrap-in-lengths]', body, functions=[])
+
+class Laws:
+    """instances of the proved scalar lemmas and of the finite-sum facts, for concrete terms (manual instantiation of universally proved / true statements)"""
+    def __init__(self, I, D): self.I, self.D = I, D
+    def rng(self, d): return And(0 <= d, d < self.D)
+    def coord(self, u, c):
+        """u = coordinate difference, c = cell length (> 0): returns (q, w) with w = wrap(u, c) and the lemma instances at q = u / c"""
+        I = self.I; q = u / c
+        I.assume(q * c == u)                                            # division by a non-zero number
+        I.assume(wrap(u, c) == c * Fr(q))                               # lemma wrap-in-lengths-is-the-cell-times-wrap-in-cell-units
+        I.assume(And(ab(Fr(q)) <= RealVal('1/2'), ab(Fr(q)) <= ab(q)))  # lemmas at-most-one-half, at-most-the-free-magnitude
+        return q, wrap(u, c)
+    def forall(self, label, f):
+        """generalisation: prove f(d) for an arbitrary coordinate d, then use it for all coordinates"""
+        I = self.I; d = I.fresh('d', IntS); I.assume(self.rng(d))
+        I.ob('step:' + label, f(d), kind='lemma')
+        I.assume(ForAll([d_], Implies(self.rng(d_), f(d_))))
+    def S(self, f): return SUMD(lam(f), self.D)
+    # facts about finite sums, as instances for the given term functions
+    def sum_nonneg(self, f): self.I.assume(Implies(ForAll([d_], Implies(self.rng(d_), f(d_) >= 0)), self.S(f) >= 0))
+    def sum_cong(self, f, g): self.I.assume(Implies(ForAll([d_], Implies(self.rng(d_), f(d_) == g(d_))), self.S(f) == self.S(g)))
+    def sum_mono(self, f, g): self.I.assume(Implies(ForAll([d_], Implies(self.rng(d_), f(d_) <= g(d_))), self.S(f) <= self.S(g)))
+    def sum_zero(self, f): self.I.assume(Implies(ForAll([d_], Implies(self.rng(d_), f(d_) == 0)), self.S(f) == 0))
+    def sqrt_facts(self, *xs):
+        for x in xs: self.I.assume(Implies(x >= 0, And(SQRT(x) >= 0, SQRT(x) * SQRT(x) == x)))
+        for x in xs:
+            for y in xs:
+                if not x.eq(y): self.I.assume(Implies(And(0 <= x, x <= y), SQRT(x) <= SQRT(y)))
+        self.I.assume(SQRT(RealVal(0)) == 0)
+
+def u_metric_laws():
+    """metric laws of the proved formula dist(x, y) = sqrt(SUM_d wrap(x_d - y_d, cell_d)^2), for every dimension and every positive cell"""
+    def body(I):
+        D = I.fresh('D', IntS); I.assume(D >= 1)
+        L = Laws(I, D)
+        x, y, z, c = (z3.Function(n, IntS, RealS) for n in ('x', 'y', 'z', 'cell'))
+        kx, ky = z3.Function('kx', IntS, IntS), z3.Function('ky', IntS, IntS)
+        I.assume(ForAll([d_], c(d_) > 0))
+        w = lambda a, b: (lambda d: wrap(a(d) - b(d), c(d)))
+        sq = lambda f: (lambda d: f(d) * f(d))
+        Sxy, Syx = L.S(sq(w(x, y))), L.S(sq(w(y, x)))
+        # 1. non-negative
+        L.forall('squares-are-non-negative', lambda d: sq(w(x, y))(d) >= 0)
+        L.sum_nonneg(sq(w(x, y))); L.sqrt_facts(Sxy)
+        I.ob('law[C15]:non-negative', And(Sxy >= 0, SQRT(Sxy) >= 0), kind='lemma')
+        # 2. symmetric
+        def sym(d):
+            q, _ = L.coord(x(d) - y(d), c(d)); q2, _ = L.coord(y(d) - x(d), c(d))
+            I.assume(Fr(-q) == -Fr(q))                                   # lemma wrap-is-odd at q
+            I.ob('step:reversed-difference-in-cell-units-is-the-negative', q2 == -q, kind='lemma'); I.assume(q2 == -q)
+            return sq(w(x, y))(d) == sq(w(y, x))(d)
+        dd = I.fresh('d', IntS); I.assume(L.rng(dd))
+        g = sym(dd); I.ob('step:each-squared-wrapped-coordinate-is-symmetric', g, kind='lemma')
+        I.assume(ForAll([d_], Implies(L.rng(d_), sq(w(x, y))(d_) == sq(w(y, x))(d_))))
+        L.sum_cong(sq(w(x, y)), sq(w(y, x)))
+        I.ob('law[C15]:symmetric', Sxy == Syx, kind='lemma')
+    return Unit('laws[non-negative,symmetric]', body, functions=[])
+
+def u_metric_laws2():
+    def body(I):
+        D = I.fresh('D', IntS); I.assume(D >= 1)
+        L = Laws(I, D)
+        x, y, c = (z3.Function(n, IntS, RealS) for n in ('x', 'y', 'cell'))
+        kx, ky = z3.Function('kx', IntS, IntS), z3.Function('ky', IntS, IntS)
+        I.assume(ForAll([d_], c(d_) > 0))
+        w = lambda a, b: (lambda d: wrap(a(d) - b(d), c(d)))
+        sq = lambda f: (lambda d: f(d) * f(d))
+        Sxy = L.S(sq(w(x, y)))
+        # 3./4. invariance under whole-cell shifts of either point (hence zero between a point and its periodic images)
+        xs = lambda d: x(d) + z3.ToReal(kx(d)) * c(d); ys = lambda d: y(d) + z3.ToReal(ky(d)) * c(d)
+        dd = I.fresh('d', IntS); I.assume(L.rng(dd))
+        q, _ = L.coord(x(dd) - y(dd), c(dd)); q2, _ = L.coord(xs(dd) - ys(dd), c(dd))
+        kk = kx(dd) - ky(dd)
+        g0 = q2 == q + z3.ToReal(kk)
+        I.ob('step:shifted-difference-in-cell-units-differs-by-an-integer', g0, kind='lemma'); I.assume(g0)
+        I.assume(ab(Fr(q + z3.ToReal(kk))) == ab(Fr(q)))                 # lemma unchanged-by-integer-shifts at q, k
+        Fa, Fb = I.fresh('Fa', RealS), I.fresh('Fb', RealS); I.assume(And(Fa == Fr(q), Fb == Fr(q2)))
+        h = Fb * Fb == Fa * Fa
+        I.ob('step:equal-magnitudes-have-equal-squares', h, kind='lemma'); I.assume(h)
+        h2 = And(sq(w(xs, ys))(dd) == c(dd) * c(dd) * (Fb * Fb), sq(w(x, y))(dd) == c(dd) * c(dd) * (Fa * Fa))
+        I.ob('step:squared-wrapped-coordinates-as-c^2-F^2', h2, kind='lemma'); I.assume(h2)
+        g1 = sq(w(xs, ys))(dd) == sq(w(x, y))(dd)
+        I.ob('step:each-squared-wrapped-coordinate-is-unchanged-by-whole-cell-shifts', g1, kind='lemma')
+        I.assume(ForAll([d_], Implies(L.rng(d_), sq(w(xs, ys))(d_) == sq(w(x, y))(d_))))
+        L.sum_cong(sq(w(xs, ys)), sq(w(x, y)))
+        I.ob('law[C15]:unchanged-by-integer-multiples-of-the-cell', L.S(sq(w(xs, ys))) == Sxy, kind='lemma')
+        # zero at images: y = x + k cell
+        xi = lambda d: x(d) + z3.ToReal(kx(d)) * c(d)
+        d3 = I.fresh('d', IntS); I.assume(L.rng(d3))
+        q3, _ = L.coord(x(d3) - xi(d3), c(d3))
+        g2 = q3 == z3.ToReal(-kx(d3))
+        I.ob('step:difference-to-an-image-is-an-integer-in-cell-units', g2, kind='lemma'); I.assume(g2)
+        I.assume(Fr(z3.ToReal(-kx(d3))) == 0)                            # lemma wrap-vanishes-at-integers
+        g3 = sq(w(x, xi))(d3) == 0
+        I.ob('step:each-wrapped-coordinate-to-an-image-vanishes', g3, kind='lemma')
+        I.assume(ForAll([d_], Implies(L.rng(d_), sq(w(x, xi))(d_) == 0)))
+        L.sum_zero(sq(w(x, xi))); L.sqrt_facts(L.S(sq(w(x, xi))))
+        I.ob('law[C15]:zero-between-a-point-and-its-periodic-images', SQRT(L.S(sq(w(x, xi)))) == 0, kind='lemma')
+    return Unit('laws[image-shifts,zero-at-images]', body, functions=[])
+
+def u_metric_laws3():
+    def body(I):
+        D = I.fresh('D', IntS); I.assume(D >= 1)
+        L = Laws(I, D)
+        x, y, z, c = (z3.Function(n, IntS, RealS) for n in ('x', 'y', 'z', 'cell'))
+        I.assume(ForAll([d_], c(d_) > 0))
+        w = lambda a, b: (lambda d: wrap(a(d) - b(d), c(d)))
+        sq = lambda f: (lambda d: f(d) * f(d))
+        Sxy = L.S(sq(w(x, y)))
+        free = lambda d: (x(d) - y(d)) * (x(d) - y(d)); quarter = lambda d: c(d) * c(d) * RealVal('1/4')
+        dd = I.fresh('d', IntS); I.assume(L.rng(dd))
+        q, _ = L.coord(x(dd) - y(dd), c(dd))
+        F = I.fresh('F', RealS); I.assume(F == Fr(q))
+        g1 = sq(w(x, y))(dd) <= free(dd); g2 = sq(w(x, y))(dd) <= quarter(dd)
+        I.ob('step:squared-wrapped-coordinate-is-c^2-F^2', sq(w(x, y))(dd) == c(dd) * c(dd) * (F * F), kind='lemma'); I.assume(sq(w(x, y))(dd) == c(dd) * c(dd) * (F * F))
+        I.ob('step:F^2-bounds', And(F * F <= RealVal('1/4'), F * F <= q * q), kind='lemma'); I.assume(And(F * F <= RealVal('1/4'), F * F <= q * q))
+        I.ob('step:free-coordinate-squared-is-c^2-q^2', free(dd) == c(dd) * c(dd) * (q * q), kind='lemma'); I.assume(free(dd) == c(dd) * c(dd) * (q * q))
+        I.ob('step:each-squared-wrapped-coordinate-is-at-most-the-squared-free-coordinate', g1, kind='lemma')
+        I.ob('step:each-squared-wrapped-coordinate-is-at-most-a-quarter-of-the-squared-cell-length', g2, kind='lemma')
+        I.assume(ForAll([d_], Implies(L.rng(d_), sq(w(x, y))(d_) <= free(d_)))); I.assume(ForAll([d_], Implies(L.rng(d_), sq(w(x, y))(d_) <= quarter(d_))))
+        I.assume(ForAll([d_], Implies(L.rng(d_), sq(w(x, y))(d_) >= 0)))         # squares (proved in laws[non-negative,symmetric])
+        L.sum_mono(sq(w(x, y)), free); L.sum_mono(sq(w(x, y)), quarter); L.sum_nonneg(sq(w(x, y)))
+        Sfree, Squart = L.S(free), L.S(quarter)
+        L.sqrt_facts(Sxy, Sfree, Squart)
+        I.ob('law[C15]:never-larger-than-the-free-space-distance', SQRT(Sxy) <= SQRT(Sfree), kind='lemma')
+        I.ob('law[C15]:never-larger-than-half-the-cell-diagonal (sqrt of the summed quarter squares)', SQRT(Sxy) <= SQRT(Squart), kind='lemma')
+        # triangle inequality, coordinate by coordinate (the l2 step is Minkowski's inequality: cited, instance assumed)
+        d2 = I.fresh('d', IntS); I.assume(L.rng(d2))
+        qa, _ = L.coord(x(d2) - y(d2), c(d2)); qb, _ = L.coord(y(d2) - z(d2), c(d2)); qc, _ = L.coord(x(d2) - z(d2), c(d2))
+        g3 = qc == qa + qb
+        I.ob('step:differences-add-in-cell-units', g3, kind='lemma'); I.assume(g3)
+        I.assume(ab(Fr(qa + qb)) <= ab(Fr(qa)) + ab(Fr(qb)))             # lemma wrap-magnitude-obeys-the-triangle-inequality at qa, qb
+        g4 = ab(w(x, z)(d2)) <= ab(w(x, y)(d2)) + ab(w(y, z)(d2))
+        Fa, Fb, Fc = I.fresh('Fa', RealS), I.fresh('Fb', RealS), I.fresh('Fc', RealS); I.assume(And(Fa == Fr(qa), Fb == Fr(qb), Fc == Fr(qc)))
+        cc = c(d2)
+        for nm, F_, wv in (('xy', Fa, w(x, y)(d2)), ('yz', Fb, w(y, z)(d2)), ('xz', Fc, w(x, z)(d2))):
+            I.assume(ab(cc * F_) == cc * ab(F_))                         # lemma magnitude-of-a-positive-multiple at cell length, F
+            h = ab(wv) == cc * ab(F_)
+            I.ob('step:magnitude-of-the-wrapped-coordinate-is-the-cell-length-times-the-magnitude-in-cell-units:' + nm, h, kind='lemma'); I.assume(h)
+        h = ab(Fc) <= ab(Fa) + ab(Fb)
+        I.ob('step:triangle-in-cell-units', h, kind='lemma'); I.assume(h)
+        I.ob('law[C15]:triangle-inequality-in-every-coordinate', g4, kind='lemma')
+        I.assume(ForAll([d_], Implies(L.rng(d_), ab(w(x, z)(d_)) <= ab(w(x, y)(d_)) + ab(w(y, z)(d_)))))
+        Sxz, Syz = L.S(sq(w(x, z))), L.S(sq(w(y, z)))
+        # Minkowski: |a_d| <= |b_d| + |c_d| for all d  =>  ||a|| <= ||b|| + ||c||
+        I.assume(Implies(ForAll([d_], Implies(L.rng(d_), ab(w(x, z)(d_)) <= ab(w(x, y)(d_)) + ab(w(y, z)(d_)))), SQRT(Sxz) <= SQRT(Sxy) + SQRT(Syz)))
+        I.ob('law[C15]:triangle-inequality (coordinate-wise triangle proved; the l2 step is an instance of Minkowski\'s inequality)', SQRT(Sxz) <= SQRT(Sxy) + SQRT(Syz), kind='lemma')
+    return Unit('laws[free-distance,half-diagonal,triangle]', body, functions=[])
+
+UNITS = [lambda: u_scalar_lemmas(), lambda: u_lift_lemmas(), lambda: u_scale_lemma(), lambda: u_metric_laws(), lambda: u_metric_laws2(), lambda: u_metric_laws3(), lambda: u_periodic(False), lambda: u_periodic(True), lambda: u_periodic(False, True), lambda: u_no_cell(False), lambda: u_no_cell(True), lambda: u_reject(), lambda: u_reject_m()]
+for st in (True, False):
+    for wc in (True, False):
+        for sq in (True, False):
+            UNITS.append((lambda a, b, c: (lambda: u_mahalanobis(a, b, c)))(st, wc, sq))
 RT = True
-UNITS = []
-TRUSTED = ["independent numpy reference implementation of the property's formulas; tolerance policy |a-b| <= atol*scale + rtol*|b|"]
+TRUSTED = ["np.round = exact round-half-to-even (rne); floats as reals (the statement's 'zero' / 'unchanged' hold exactly here, up to rounding in floating point)",
+           "SUMD(f, D): the finite sum over the coordinates, uninterpreted; used facts, each assumed as an instance for concrete term functions: non-negative terms give a non-negative sum, "
+           "equal terms equal sums, smaller terms smaller sums, zero terms a zero sum; sqrt is non-negative, monotone, sqrt(x)^2 = x for x >= 0",
+           "Minkowski's inequality (l2 triangle from the coordinate-wise triangle, which IS proved): cited, instance assumed",
+           "lemma instances are instantiated by hand in the law units (each names the lemma it instantiates; the lemmas themselves are proved for all arguments in the lemma units)",
+           "sklearn check_pairwise_arrays / _euclidean_distances contracts; Mahalanobis identities (identity precision = periodic Euclid, L L^T = whitening) follow from the proved quadratic-form formula and are checked at run time only"]
